@@ -413,3 +413,29 @@ func movesUci(ms []rc.Move) []string {
 	}
 	return r
 }
+
+// heavyPosition builds a legal position crowded with queens, rooks and bishops of both
+// colours (as after many promotions): quiescence trees are huge there.
+func heavyPosition(r *Rng) *rc.Board {
+	for {
+		b := &rc.Board{Ep: -1, Full: 30 + r.Intn(60), Half: r.Intn(20)}
+		wk, bk := r.Intn(64), r.Intn(64)
+		if wk == bk || (abs(rc.File(wk)-rc.File(bk)) <= 1 && abs(rc.Rank(wk)-rc.Rank(bk)) <= 1) {
+			continue
+		}
+		b.Sq[wk], b.Sq[bk] = 'K', 'k'
+		n := 10 + r.Intn(26)
+		pieces := "QQQRBNqqqrbn"
+		for i := 0; i < n; i++ {
+			sq := r.Intn(64)
+			if b.Sq[sq] == 0 {
+				b.Sq[sq] = pieces[r.Intn(len(pieces))]
+			}
+		}
+		b.White = r.Chance(0.5)
+		if b.Validate() != nil || len(b.Legal()) == 0 {
+			continue
+		}
+		return b
+	}
+}
